@@ -1835,6 +1835,92 @@ func rC07SingleDash(w *World, r *Report) {
 		}
 	})
 	ru.Check(okOpt, "single-dash/option", w.Pos(fn.Pos()), "Option = string([]rune(match[2])[0])", "the single-dash option is not the first character of the token")
+	// the value is attached whenever there is one: the store of Args is skipped only when the option text is a
+	// single rune AND nothing is attached (match[3] empty)
+	ig := buildIG(fn)
+	var argStores []ssa.Instruction
+	eachInstr(fn, func(in ssa.Instruction) {
+		if st, ok := in.(*ssa.Store); ok && inSD(in.Block()) {
+			if fa, ok := st.Addr.(*ssa.FieldAddr); ok && fieldOfAddr(fa).Name() == "Args" {
+				argStores = append(argStores, in)
+			}
+		}
+	})
+	isArgStore := func(in ssa.Instruction) bool {
+		for _, a := range argStores {
+			if a == in {
+				return true
+			}
+		}
+		return false
+	}
+	m3Empty := func(fc Fact) bool {
+		if fc.Y == nil {
+			return false
+		}
+		x, y, op := fc.X, fc.Y, fc.Op
+		if _, isC := x.(*ssa.Const); isC {
+			x, y = y, x
+			switch op {
+			case token.LSS:
+				op = token.GTR
+			case token.GTR:
+				op = token.LSS
+			case token.LEQ:
+				op = token.GEQ
+			case token.GEQ:
+				op = token.LEQ
+			}
+		}
+		if c, ok := lenOf(x); ok && isSubmatchElem(c, 3) {
+			k, isK := constInt(y)
+			return isK && ((op == token.LEQ && k == 0) || (op == token.EQL && k == 0) || (op == token.LSS && k == 1))
+		}
+		if isSubmatchElem(x, 3) {
+			sv, isS := constString(y)
+			return isS && sv == "" && op == token.EQL
+		}
+		return false
+	}
+	skipBad := ""
+	nSkip := 0
+	for _, b := range fn.Blocks {
+		iff, ok := b.Instrs[len(b.Instrs)-1].(*ssa.If)
+		if !ok || !inSD(b) || len(argStores) == 0 {
+			continue
+		}
+		for k, sc := range b.Succs {
+			// an edge after which the store can no longer happen, taken from a block from which it still could
+			fromHere := ig.reachFrom([]int{ig.idx[iff]}, func(ssa.Instruction) bool { return false })
+			fromSucc := ig.reachFrom([]int{ig.first[sc]}, func(ssa.Instruction) bool { return false })
+			can, canAfter := false, false
+			for _, a := range argStores {
+				if fromHere[ig.idx[a]] {
+					can = true
+				}
+				if fromSucc[ig.idx[a]] {
+					canAfter = true
+				}
+			}
+			if !can || canAfter {
+				continue
+			}
+			// does this edge lead to a return of pairs at all (not the error / other-mode paths)
+			nSkip++
+			facts := append(factsAt(b), condFacts(iff.Cond, k == 0, iff)...)
+			emptyKnown := false
+			for _, fc := range facts {
+				if m3Empty(fc) {
+					emptyKnown = true
+				}
+			}
+			if !emptyKnown {
+				skipBad = w.IPos(iff)
+			}
+		}
+	}
+	_ = isArgStore
+	ru.Check(skipBad == "" && nSkip > 0, "single-dash/value-attached", w.Pos(fn.Pos()), "the value is left out only when match[3] is empty", "in single-dash mode the pair can be returned without its value although text is attached (decided at "+skipBad+"): `-x=v` loses `=v`")
 	ru.Check(okArgs && nArgsStores == nGoodArgs, "single-dash/value", w.Pos(fn.Pos()), "Args = string([]rune(match[2])[1:]) + match[3]", fmt.Sprintf("the single-dash value is not exactly the rest of the token on every path (%d of %d stores have the documented shape)", nGoodArgs, nArgsStores))
 }
 
